@@ -13,6 +13,7 @@ import DocsModel.Model.Events
 import DocsModel.Model.Actor
 import DocsModel.Model.Codec
 import DocsModel.Model.Session
+import DocsModel.Model.Coord
 /-!
 Line-protocol driver: one output line per input line. The Rust harness pipes the same operation
 lines it applied to the real crate and compares the two output streams.
@@ -67,6 +68,8 @@ structure World where
   evs : List (Nat × Events.State × Nat) := []
   /-- store actors (C14) -/
   actors : List (Nat × Actor.AState) := []
+  /-- two-node coordination systems (C11) -/
+  coords : List (Nat × Coord.Sys) := []
   /-- specification bookkeeping for C14: handles per (actor, document) = opens − releases -/
   handleCounts : List ((Nat × Bytes) × Nat) := []
 
@@ -330,6 +333,27 @@ def parseEnd? (s : String) : Option StreamEnd :=
 
 end SessTok
 
+namespace CoordTok
+open Coord
+
+def parseAction? : List String → Option Action
+  | ["dial", n, r] => do pure (.dial (← parseBool? n) (← parseBool? r))
+  | ["deliver", n] => do pure (.deliverReq (← parseBool? n))
+  | ["lose", n] => do pure (.loseReq (← parseBool? n))
+  | ["cc", n, i] => do pure (.completeConnect (← parseBool? n) (← parseNat? i))
+  | ["ca", n, sid] => do pure (.completeAccept (← parseBool? n) (← parseNat? sid))
+  | ["cd", n] => do pure (.completeDeclined (← parseBool? n))
+  | _ => none
+
+def showNode (x : Node) : String :=
+  (if x.syncing then (match x.st with | .idle => "0" | .conn => "1" | .acc => "2") ++ "," ++ showBool x.resync else "-") ++
+  "," ++ toString x.dialsMade
+
+def showSys (s : Sys) : String :=
+  "a=" ++ showNode s.a ++ " b=" ++ showNode s.b ++ " sessions=" ++ toString s.sessions.length
+
+end CoordTok
+
 def showInsertResult : Tables.InsertResult → String
   | .inserted n => "inserted " ++ toString n
   | .notInserted => "notinserted"
@@ -554,6 +578,32 @@ def step (w : World) (line : String) : World × String :=
       | none => (w, "no-store")
     | _, _, _, _, _, _ => (w, "bad-op")
   -- snapshots and the join specification of a session
+  -- ---- session coordination between two nodes (Coord.lean) ----
+  | ["cnew", sid, bg, sa, sb] =>
+    match parseNat? sid, parseBool? bg, parseBool? sa, parseBool? sb with
+    | some sid, some bg, some sa, some sb =>
+      ({ w with coords := (sid, { bGreater := bg, a := { syncing := sa }, b := { syncing := sb } }) :: w.coords.filter (·.1 != sid) }, "ok")
+    | _, _, _, _ => (w, "bad-op")
+  | "cstep" :: sid :: fix :: rest =>
+    match parseNat? sid, parseBool? fix, CoordTok.parseAction? rest with
+    | some sid, some fix, some a =>
+      match w.coords.lookup sid with
+      | some s =>
+        let s' := Coord.step fix s a
+        ({ w with coords := (sid, s') :: w.coords.filter (·.1 != sid) }, CoordTok.showSys s')
+      | none => (w, "no-store")
+    | _, _, _ => (w, "bad-op")
+  -- specifications of C11 evaluated on the model state
+  | ["cspec", sid] =>
+    match parseNat? sid with
+    | some sid =>
+      match w.coords.lookup sid with
+      | some s =>
+        (w, "inprogress<=1:" ++ showBool ((Coord.inProgress s).length ≤ 1) ++
+            " quiescent:" ++ showBool (Coord.quiescent s) ++
+            " ready:" ++ showBool ((s.a.st == .idle || !s.a.syncing) && (s.b.st == .idle || !s.b.syncing)))
+      | none => (w, "no-store")
+    | none => (w, "bad-op")
   -- ---- the two ends of a session (Session.lean) over the table model ----
   | "bobrun" :: sid :: ns :: now :: accept :: failFrom :: e :: items =>
     match parseNat? sid, Bytes.ofHex ns, parseNat? now, SessTok.parseAccept? accept,
